@@ -4,7 +4,8 @@ import threading
 
 FAMILY = 'Mempool'
 DRIVER = 'mempool'
-HOOK_COMMITS = ['1d9f55d', '8e8da1f']   # H3 types.VerifSetTimeShift, H5 mempool verifEvent/VerifSnapshot/VerifSweep
+HOOK_COMMITS = ['1d9f55d', '8e8da1f', '0f2a9b9']   # H3 types.VerifSetTimeShift; H5 mempool verifEvent/VerifSnapshot/VerifSweep; H5b process-wide observer
+FIX_COMMITS = ['498e49c', '305d55f']   # Transaction.IsExpire on group members (C22); delBlock re-admitting on-chain transactions (C21)
 
 PROPS = {
     'C21': dict(
@@ -200,7 +201,7 @@ def concurrent_leg(ctx, b, q):
 
 
 def node_leg(ctx, b, st, q, label, want=('Reorg',), **kw):
-    """Behaviours a full node can be made to perform (Reorg instead of a lone DelBlock, no lone sweep) replayed on a
+    """Behaviours a full node can be made to perform (Reorg instead of a lone DelBlock, no empty block) replayed on a
     util/testnode: blocks are executed by a factory node and delivered through BlockChain.ProcAddBlockMsg. Node starts are
     expensive, so more behaviours are generated than replayed and those containing the wanted steps are preferred."""
     name = 'gen_node_%s.cfg' % label
@@ -218,6 +219,40 @@ def node_leg(ctx, b, st, q, label, want=('Reorg',), **kw):
     sel = (first[:(keep * 3) // 4] + rest)[:keep]
     ctx.extra['node_rig'] = dict(generated=len(bs), replayed=len(sel), with_reorganisation=sum(1 for x in sel if wanted(x)))
     preplay(ctx, b, sel, dict(rig='node'), shards=4, label='node-' + label)
+
+
+def race_leg(ctx, b, q):
+    """C21 'schedules' on a full node: while requesters keep the pool's high-priority bus channel busy, the tip (holding
+    transaction T) is replaced by a heavier sibling that also holds T. The rollback notice travels on the low-priority
+    channel, so the pool may handle the sibling's EventAddBlock first; T must not be in the pool afterwards."""
+    import json
+    for k in range(1 if q else 3):
+        seed = ctx.seed * 10 + k
+        rc, out = vlib.sh([b, 'race', '--seed', str(seed), '--prop', ctx.prop, '--tier', ctx.tier, '--opt', 'attempts=12,flooders=16'],
+                          cwd=ctx.scratch, timeout=3600)
+        m = [l for l in out.splitlines() if l.startswith('RACE ')]
+        if rc != 0 or not m:
+            raise vlib.Broken('race recorder failed rc=%d:\n%s' % (rc, out[-3000:]))
+        o = json.loads(m[-1][5:])
+        inv = sum(1 for x in o['orders'] if 'rmblock' not in x)
+        vlib.log('[race] seed %d: %d reorganisations under load, %d handled in inverted order, %d left an on-chain transaction in the pool'
+                 % (seed, o['attempts'], inv, o['inverted']))
+        ctx.evaluations += o['attempts']
+        ctx.traces += o['attempts']
+        ctx.nontrivial += inv
+        r = ctx.extra.setdefault('reorg_under_load', dict(reorganisations=0, handled_inverted=0, violations=0))
+        r['reorganisations'] += o['attempts']
+        r['handled_inverted'] += inv
+        r['violations'] += o['inverted']
+        if o['inverted']:
+            sig = 'node|reorg-under-load|transaction-of-added-block-back-in-pool'
+            keep = os.path.join(vlib.REPLAYS, '%s-%s-race-%d.json' % (ctx.prop, ctx.fam, seed))
+            json.dump(dict(property=ctx.prop, family=ctx.fam, seed=ctx.seed, tier=ctx.tier, opts={},
+                           extra=dict(kind='trace', recorder='race', outcome=o), signature=sig), open(keep, 'w'), indent=1)
+            ctx.mismatches.append(dict(signature=sig, replay=keep, field='schedule',
+                                       expected='after EventAddBlock(b) none of b\'s transactions is in the pool',
+                                       observed='transaction T of the replacing block is in the pool (pool mutation orders per attempt: %s)' % o['orders']))
+            raise Found()
 
 
 def run(ctx):
@@ -254,6 +289,7 @@ def run_c21(ctx, q, b, st):
     ctx.extra['exhaustive_small_config'] = dict(cfg='all_c21.cfg (Mode=hist)', behaviours=len(allb))
     node_leg(ctx, b, st, q, 'c21')
     concurrent_leg(ctx, b, q)
+    race_leg(ctx, b, q)
 
 
 def run_c22(ctx, q, b, st):
